@@ -140,6 +140,72 @@ def scoreSumU (u : Rat) (p : SProfile) : Votes :=
 /-- `ScoreVoting('sum', unscored_value=u).evaluate(votes, 1)` -/
 def evalScoreSumU (u : Rat) (p : SProfile) : List Slot := getNBest (scoreSumU u p) 1
 
+/-! ### `ScoreVoting(function, unscored_value)` with a named aggregation and a CALLABLE fill-in value (convert.py L160-240):
+    every candidate's scores form a multiset (a score repeated by the number of voters who gave it); a callable
+    `unscored_value` is applied to that multiset and the voters who did not score the candidate count as its value -/
+
+/-- the functions admitted by name (`min`, `max` builtins, `mean` = util.exact_mean, `median` = statistics.median), a constant,
+    and `lambda xs: Fraction(min(xs) + max(xs), 2)` -/
+inductive ListFn where
+  | sum | mean | median | min | max | midrange | const (v : Rat)
+deriving DecidableEq, Repr
+
+def insRat (x : Rat) : List Rat → List Rat
+  | [] => [x]
+  | y :: ys => if x ≤ y then x :: y :: ys else y :: insRat x ys
+
+def sortRats : List Rat → List Rat
+  | [] => []
+  | x :: xs => insRat x (sortRats xs)
+
+/-- the function applied to a list of scores; on the empty list `exact_mean` divides by zero, `statistics.median` raises
+    StatisticsError, `min` / `max` raise ValueError -/
+def ListFn.eval : ListFn → List Rat → Except Err Rat
+  | .sum, l => .ok l.sum
+  | .const v, _ => .ok v
+  | .mean, l => if l.isEmpty then .error (.other "ZeroDivisionError") else .ok (l.sum / (l.length : Rat))
+  | .median, l =>
+    let s := sortRats l
+    if l.isEmpty then .error (.other "StatisticsError")
+    else if s.length % 2 = 1 then .ok (s.getD (s.length / 2) 0)
+    else .ok ((s.getD (s.length / 2 - 1) 0 + s.getD (s.length / 2) 0) / 2)
+  | .min, l => match sortRats l with
+    | [] => .error .valueError
+    | x :: _ => .ok x
+  | .max, l => match (sortRats l).getLast? with
+    | none => .error .valueError
+    | some x => .ok x
+  | .midrange, l => match sortRats l, (sortRats l).getLast? with
+    | x :: _, some y => .ok ((x + y) / 2)
+    | _, _ => .error .valueError
+
+/-- the scores candidate `c` received, each repeated by the number of voters (convert.py L188-191, L232-235) -/
+def scoresOf (p : SProfile) (c : Cand) : List Rat :=
+  p.flatMap (fun bw => match bw.1.find? (fun e => e.1 = c) with
+    | some e => List.replicate bw.2.floor.toNat e.2
+    | none => [])
+
+/-- `ScoreToSimpleVotes(function, unscored_value).convert`: with a fill-in, `scores[u] = n_votes - n_scores + scores.get(u, 0)`
+    where `u` is the number or the callable applied to the candidate's multiset of scores -/
+def scoreGen (agg : ListFn) (fill : Option ListFn) (p : SProfile) : Except Err Votes :=
+  (scoreSum p).mapM (fun e =>
+    let xs := scoresOf p e.1
+    match fill with
+    | none => match agg.eval xs with
+      | .ok v => .ok (e.1, v)
+      | .error err => .error err
+    | some f => match f.eval xs with
+      | .error err => .error err
+      | .ok u => match agg.eval (xs ++ List.replicate ((sumValues p).floor.toNat - xs.length) u) with
+        | .ok v => .ok (e.1, v)
+        | .error err => .error err)
+
+/-- `ScoreVoting(function, unscored_value).evaluate(votes, 1)` -/
+def evalScoreGen (agg : ListFn) (fill : Option ListFn) (p : SProfile) : Except Err (List Slot) :=
+  match scoreGen agg fill p with
+  | .ok d => .ok (getNBest d 1)
+  | .error e => .error e
+
 /-- `PreferenceAddition._add_round_votes` (sequential.py L600-616) with coefficient 1 and nobody elected yet;
     a shared rank gives its whole weight to every member (the `isinstance(preference, Set)` branch) -/
 def bucklinRound (p : RProfile) (i : Nat) (tot : Votes) : Votes :=
